@@ -267,3 +267,12 @@ Fixpoint find_late (v : Z) (l : list (nat * Z)) (k : nat) : option nat :=
   | [] => None
   | (_, w) :: tl => if v =? w then Some k else find_late v tl (S k)
   end.
+
+(* uniquely named entry points for the extracted checker (ocaml/replrun.ml) *)
+Definition repl_init := init.
+Definition repl_step := step.
+Definition repl_settle := settle.
+Definition repl_find_late := find_late.
+Definition repl_view (s : state) : (Z * Z * Z) * (hstate * option Z * mstate) * (list (nat * Z) * list (Z * Z)) :=
+  ((logs s, cur s, stored s), (hnd s, pers s, mgr s), (late s, lacc s)).
+Definition repl_started := started.
